@@ -58,7 +58,8 @@ type hcall struct {
 	respArrived     bool   // a well-formed success response for it was delivered while registered and before any cut/close
 	respBody        []byte // that response's body
 	expectErrTxt    string // error response text delivered first, if any
-	written         bool   // its request write returned nil
+	replyAtAbandon  []byte
+	written         bool // its request write returned nil
 	startedAfterCut bool
 }
 
@@ -413,6 +414,7 @@ func (r *connRun) close() {
 
 func (r *connRun) ctxDone(c *hcall) {
 	c.abandoned = true
+	c.replyAtAbandon = append([]byte(nil), *c.reply...)
 	c.cancel()
 	r.record(fmt.Sprintf("HCtxDone %d", c.id), fmt.Sprintf("CtxDone %d", c.id))
 	if !c.returned || c.retErr != context.Canceled {
@@ -545,6 +547,10 @@ func (r *connRun) endOracles() {
 	for _, c := range r.calls {
 		dc := r.doneCount(c)
 		if c.abandoned {
+			// C19: a response arriving after CallWithContext returned must not touch the caller's reply
+			if !bytes.Equal(*c.reply, c.replyAtAbandon) {
+				r.e.fail("C19-late-response-writes-caller-memory", fmt.Sprintf("call %d: after CallWithContext returned the context error, a late response overwrote the caller's reply object (%x -> %x)", c.id, c.replyAtAbandon, *c.reply), r.replay())
+			}
 			continue
 		}
 		if dc != 1 {
@@ -657,9 +663,9 @@ func runConn(work, prop string) {
 			runOne(r, "script-"+sc)
 		}
 	}
-	n := 150
+	n := 400
 	if e.thorough() {
-		n = 3000
+		n = 4000
 	}
 	if os_getenv("VERIF_SEARCH") != "" {
 		n *= 3
